@@ -71,6 +71,12 @@ def chk_umeyama(inp):
         f.append("scale_positive")
     base = _resid(x, y, r, tt, c)
     scale_ref = max(1e-30, float(np.sum((y - y.mean(axis=1, keepdims=True))**2)))
+    # float64 conditioning of the residual itself: every transformed coordinate carries a rounding error of a few ulps
+    # of the coordinate magnitude M (large common offsets!), which moves a sum of n squared distances of total size
+    # `base` by at most about 2*sqrt(base)*sqrt(3n)*d + 3n*d^2.  Two optimal solutions can differ by that much.
+    M = max(float(np.abs(x).max()), float(np.abs(y).max()), float(np.abs(tt).max()), 1.0)
+    d_ = 64 * np.finfo(float).eps * M
+    cond = 2 * np.sqrt(max(base, 0.0)) * np.sqrt(3 * x.shape[1]) * d_ + 3 * x.shape[1] * d_ * d_
     # (i) not worse than the generating transformation (when it is in the class) and than perturbations
     cands = []
     if inp["kind"] != "mirrored" and (ws or s == 1.0):
@@ -79,12 +85,12 @@ def chk_umeyama(inp):
         dr = B.rodrigues(rng.normal(size=3) / 1.0, 0.0) if False else B.rodrigues(_unit(rng), float(rng.normal() * 0.05))
         cands.append((dr @ r, tt + rng.normal(size=3) * 1e-2 * (1 + np.abs(tt).max()), c * (1 + (rng.normal() * 0.02 if ws else 0.0))))
     for (r2, t2, c2) in cands:
-        if _resid(x, y, r2, t2, c2) < base - 1e-9 * scale_ref - 1e-18:
+        if _resid(x, y, r2, t2, c2) < base - 1e-9 * scale_ref - 1e-18 - cond:
             f.append("least_squares_optimal: another transformation of the class has a smaller residual")
             break
     # (ii) independent solver (Kabsch via eigen-decomposition of the Horn matrix)
     r_h, t_h, c_h = _horn(x, y, ws)
-    if _resid(x, y, r_h, t_h, c_h) < base - 1e-8 * scale_ref - 1e-18:
+    if _resid(x, y, r_h, t_h, c_h) < base - 1e-8 * scale_ref - 1e-18 - cond:
         f.append("least_squares_optimal: independent solver finds a smaller residual")
     # (iii) noise-free data: reproduces the generating transformation
     if not inp.get("noise") and inp["kind"] == "generic" and (ws or s == 1.0) and inp["n"] >= 4 and not inp.get("offset"):
